@@ -1114,9 +1114,9 @@ SUBS = [
     Sub('gls', lambda tier: fit_case(tier), gls_oracle, {'quick': 150, 'thorough': 2500}, {'quick': 10, 'thorough': 16},
         doc='Levenberg-Marquardt fits vs closed-form GLS: values, fluctuations, gradients, chisquare, dof, p-values', max_skip_frac=0.2),
     Sub('methods', methods_case, gls_oracle, {'quick': 120, 'thorough': 2000}, {'quick': 3, 'thorough': 8},
-        doc='migrad / Nelder-Mead / Powell vs closed-form GLS', max_skip_frac=0.2),
+        doc='migrad / Nelder-Mead / Powell vs closed-form GLS', max_skip_frac=0.3),
     Sub('perm', perm_case, perm_oracle, {'quick': 100, 'thorough': 1500}, {'quick': 2, 'thorough': 6},
-        doc='permutation of data points and of dictionary insertion orders', max_skip_frac=0.2),
+        doc='permutation of data points and of dictionary insertion orders', max_skip_frac=0.3),
     Sub('corrfit', corrfit_case, corrfit_oracle, {'quick': 150, 'thorough': 1500}, {'quick': 1, 'thorough': 4},
         doc='Corr.fit: inclusive range, undefined timeslices skipped, equals GLS on those timeslices', max_skip_frac=0.25),
     Sub('chain', chain_case, chain_oracle, {'quick': 60, 'thorough': 1500}, {'quick': 1, 'thorough': 4},
